@@ -99,6 +99,7 @@ def check_doc(sv, d, kind, open_keys, stats):
         stats['law:' + nm] = stats.get('law:' + nm, 0) + 1
         if nontrivial:
             stats['nontrivial'] = stats.get('nontrivial', 0) + 1
+            stats.setdefault('_nontrivial_laws', []).append(nm)
         if ok:
             return
         rec = {'law': nm, 'info': info}
@@ -232,15 +233,15 @@ def run_unit(u):
             continue
         stats = {}
         viol, hits = check_doc(sv, d, kind, open_keys, stats)
+        nt_laws = stats.pop('_nontrivial_laws', [])
         for k, v in stats.items():
             cn[k] = cn.get(k, 0) + v
         cn['documents'] = cn.get('documents', 0) + 1
         cn['kind:' + kind] = cn.get('kind:' + kind, 0) + 1
         res['evals'] += sum(v for k, v in stats.items() if k.startswith('law:'))
         shape = sig(trees.describe(d, 400))
-        for k in stats:
-            if k.startswith('law:'):
-                sigs.add(sig(k, shape))
+        for k in nt_laws:
+            sigs.add(sig(k, shape))
         for h in hits:
             cn['known:' + h['key']] = cn.get('known:' + h['key'], 0) + 1
             if len([v for v in res['viol'] if v.get('known_key') == h['key']]) < 2:
